@@ -80,7 +80,7 @@ def discharge(vc, timeout_ms=10000, use_cvc5=True, keep_model=True):
             if len(sub) >= len(vc.pc):
                 break
             s0 = z3.Solver()
-            s0.set("timeout", max(1000, timeout_ms // 2))
+            s0.set("timeout", timeout_ms)
             for c in sub:
                 s0.add(c)
             s0.add(z3.Not(vc.goal))
